@@ -1,4 +1,4 @@
-import Secp.Gen.Formulas
+import Secp.Gen.FormulasC
 import Secp.Gen.Consts
 import Secp.Gen.Table
 import Secp.Spec.Curve
@@ -6,8 +6,8 @@ import Secp.Spec.Curve
   Model/ScalarMult — curve.go: naf, splitK, ScalarMultNonConst, ScalarBaseMultNonConst.
 
   The control flow (loops, NAF digit selection, sign flips, table lookups) is mirrored by hand;
-  every point operation is the REGENERATED formula program (`Gen.Formulas.AddNonConst_r1`,
-  `DoubleNonConst_r1`, run at value level), the endomorphism constants come from `Gen.Consts`
+  every point operation is the REGENERATED call-structured formula program (`Gen.FormulasC`,
+  entries AddNonConst_a010 = result≡p1, DoubleNonConst_a00 = result≡p, run at value level), the endomorphism constants come from `Gen.Consts`
   and the base-point table from `Gen.Table` (all regenerated from /repo on every check run).
 -/
 namespace Secp.Model
@@ -17,21 +17,28 @@ abbrev Jac := Nat × Nat × Nat
 
 def Jac.inf : Jac := (0, 0, 0)
 
+/-- index of a named entry in the call-structured table -/
+def entryIdx (name : String) : Nat := (Secp.Gen.FormulasC.allEntries.findIdx? (·.name == name)).getD 0
+
+/-- run a named entry of the regenerated call-structured formula table at value level -/
+def runNamed (name : String) (params : List Nat) (bools : List Bool) : Option (Regs × Option Bool) :=
+  runEntryC Secp.Gen.FormulasC.allEntries 8 (entryIdx name) params bools
+
 /-- `AddNonConst(&q, p, &q)` (result aliases the first operand, as everywhere in curve.go) -/
 def addNC (q p : Jac) : Jac :=
-  match runEntry Secp.Gen.Formulas.AddNonConst_r1 [q.1, q.2.1, q.2.2, p.1, p.2.1, p.2.2] [] with
+  match runNamed "AddNonConst_a010" [q.1, q.2.1, q.2.2, p.1, p.2.1, p.2.2] [] with
   | some (r, _) => (rget r 0, rget r 1, rget r 2)
   | none => Jac.inf   -- unreachable: the paths cover every predicate outcome
 
 /-- `DoubleNonConst(&q, &q)` -/
 def dblNC (q : Jac) : Jac :=
-  match runEntry Secp.Gen.Formulas.DoubleNonConst_r1 [q.1, q.2.1, q.2.2] [] with
+  match runNamed "DoubleNonConst_a00" [q.1, q.2.1, q.2.2] [] with
   | some (r, _) => (rget r 0, rget r 1, rget r 2)
   | none => Jac.inf
 
 /-- `p.ToAffine()` -/
 def toAffineJ (q : Jac) : Jac :=
-  match runEntry Secp.Gen.Formulas.ToAffine [q.1, q.2.1, q.2.2] [] with
+  match runNamed "ToAffine" [q.1, q.2.1, q.2.2] [] with
   | some (r, _) => (rget r 0, rget r 1, rget r 2)
   | none => Jac.inf
 
